@@ -37,7 +37,7 @@ MUST_REACH = ["lena/flow/cache.py:Cache._dump_flow_and_yield", "lena/flow/cache.
 MUST_COUNT = ["replay_runs_checked", "interrupted_first_runs", "pulls_observed"]
 MIN_NONTRIVIAL = {"quick": 500, "thorough": 3000}
 EXHAUSTIVE = {"quick": True, "thorough": True}
-NMAX = {"quick": 4, "thorough": 7}
+NMAX = {"quick": 4, "thorough": 10}
 
 LEVEL_TEXT = ("Every crash point of the first run (consumer stop, upstream fault, downstream fault "
               "at each k) for every flow length up to the bound, pipeline shape and later-run "
@@ -523,3 +523,6 @@ def _run_case(r, obs, d):
             obs.fail("post-crash-wrong-output:%s:%s-stop" % (shape, kind),
                      "%s gave %r; expected recomputation %r" % (ctxs, got, full_j))
             return
+
+
+RULE += (' Faults are raised both as Exception and as KeyboardInterrupt; flows with None / false bare values.')
